@@ -53,6 +53,7 @@ import EsbuildModel.Impl.ScopesSyntax
 import EsbuildModel.Impl.JsonDriver
 import EsbuildModel.Impl.CssLexDriver
 import EsbuildModel.Impl.StdioAsync
+import EsbuildModel.Impl.StmtPrintDriver
 
 open EsbuildModel
 
@@ -116,6 +117,7 @@ def dispatch (kernel : String) (args : List String) : String :=
   | "jsonrt" => Json.driver args
   | "csslex" => CssLex.driver args
   | "stdioasync" => StdioAsync.driver args
+  | "stmtprint" => StmtPrintDriver.driver args
   | _ => "bad-kernel"
 
 partial def loop (hin hout : IO.FS.Stream) : IO Unit := do
